@@ -157,6 +157,9 @@ pub struct World {
     pub collected_once: Cell<bool>,
     pub destroyed_this_op: RefCell<Vec<Oid>>,
     pub dact_depth: Cell<u32>,
+    /// (root index, old object) of a make_mut call in progress (clone branch)
+    pub makemut: Cell<Option<(usize, Oid)>>,
+    pub makemut_new: Cell<Oid>,
 }
 
 static mut WORLD: Option<World> = None;
@@ -185,6 +188,8 @@ pub fn install_world(cfg: Cfg) {
             collected_once: Cell::new(false),
             destroyed_this_op: RefCell::new(vec![]),
             dact_depth: Cell::new(0),
+            makemut: Cell::new(None),
+            makemut_new: Cell::new(NONE),
         });
     }
 }
@@ -303,6 +308,44 @@ impl Node {
     }
 }
 
+impl Clone for Node {
+    /// Only called by `Rc::make_mut` when the value is shared: the clone is a
+    /// new object that owns fresh (unrecorded) handle instances.
+    fn clone(&self) -> Node {
+        let _t = track_off();
+        let _p = PhaseGuard(set_phase(Phase::Harness));
+        let wd = w();
+        let new_id = wd.model.borrow_mut().new_obj(0, 0, !self.dscript.is_empty());
+        let n = Node::new(new_id, self.dscript.clone());
+        for s in self.slots.borrow().iter() {
+            let c = lib(|| Rc::clone(&s.h));
+            let lr = LoggedRc::new(c, s.target);
+            lr.owner.set(new_id);
+            n.slots.borrow_mut().push(lr);
+            wd.model.borrow_mut().objs[new_id as usize].slots.push(s.target);
+        }
+        for s in self.weaks.borrow().iter() {
+            let c = {
+                let _t = track_on();
+                Weak::clone(&s.w)
+            };
+            let lw = LoggedWeak::new(c, s.target);
+            lw.owner.set(new_id);
+            n.weaks.borrow_mut().push(lw);
+            wd.model.borrow_mut().objs[new_id as usize].wslots.push(s.target);
+        }
+        wd.makemut_new.set(new_id);
+        if let Some((ri, old)) = wd.makemut.get() {
+            // make_mut is about to overwrite (and thereby drop) the caller's
+            // handle to the old object: open the bracket for that drop now,
+            // with the clone's handles already counted
+            wd.model.borrow_mut().roots[ri] = new_id;
+            on_hdrop_begin(old);
+        }
+        n
+    }
+}
+
 impl Drop for LoggedRc {
     fn drop(&mut self) {
         let _t = track_off();
@@ -312,7 +355,7 @@ impl Drop for LoggedRc {
         if owner != NONE {
             w().model.borrow_mut().remove_slot_instance(owner, target);
         }
-        on_hdrop_begin(target, &self.h);
+        on_hdrop_begin(target);
         struct G(Oid);
         impl Drop for G {
             fn drop(&mut self) {
@@ -385,7 +428,7 @@ fn fmt_set(v: &[Oid]) -> String {
     format!("{{{}}}", v.iter().map(|x| x.to_string()).collect::<Vec<_>>().join(","))
 }
 
-pub fn on_hdrop_begin(target: Oid, h: &Rc<Node>) {
+pub fn on_hdrop_begin(target: Oid) {
     let wd = w();
     let mut m = wd.model.borrow_mut();
     m.time += 1;
@@ -462,7 +505,6 @@ pub fn on_hdrop_begin(target: Oid, h: &Rc<Node>) {
         if wd.cfg.cost_checks {
             // C14: "currently has no recorded adoption" is taken from the
             // ledger (a table entry with count zero is not a recorded adoption)
-            let _ = h;
             let empty = !b.had_records;
             b.cost = Cost {
                 table_empty: empty,
